@@ -79,7 +79,7 @@ def emit_const(name, v):
 # ----------------------------------------------------------------------------- Consts.v
 def gen_consts():
     L = ["(* GENERATED from /repo/lbfgsb by harness/translate.py - do not edit *)",
-         "From Coq Require Import ZArith String List Floats.PrimFloat.", "Import ListNotations.", "Open Scope string_scope.", ""]
+         "From Coq Require Import ZArith String List Floats.PrimFloat.", "Import ListNotations.", "Local Open Scope string_scope.", ""]
     main = ast.parse(_src("main.py"))
     f = _func(main, "minimize_lbfgsb")
     if f.args.args or f.args.posonlyargs:
@@ -294,7 +294,7 @@ def gen_stoptests():
     mf = _func(main, "minimize_lbfgsb")
     sites = [ast.unparse(c.args[0]) for c in ast.walk(mf) if isinstance(c, ast.Call) and ast.unparse(c.func) == "is_f0_target_reached"]
     L.append("")
-    L.append("From Coq Require Import String List. Import ListNotations. Open Scope string_scope.")
+    L.append("From Coq Require Import String List. Import ListNotations. Local Open Scope string_scope.")
     L.append("Definition target_test_argument_src : list string := [" + "; ".join(coq_string(s) for s in sites) + "].")
     sites2 = [", ".join(ast.unparse(a) for a in c.args[:3]) for c in ast.walk(mf) if isinstance(c, ast.Call) and ast.unparse(c.func) == "is_f0_min_change_reached"]
     L.append("Definition min_change_test_argument_src : list string := [" + "; ".join(coq_string(s) for s in sites2) + "].")
